@@ -2226,7 +2226,8 @@ def run_auth_scripts(
             stack_max_item_size=stack_max_item_size,
             callstack_limit=callstack_limit
         )
-        assert tape.has_terminated()
+        if not tape.has_terminated():
+            return False
         contracts = tape.contracts
         plugins = tape.plugins
 
@@ -2242,12 +2243,12 @@ def run_auth_scripts(
             tape.contracts = contracts
             tape.plugins = plugins
             run_tape(tape, stack, cache)
-            assert tape.has_terminated()
+            if not tape.has_terminated():
+                return False
 
-        assert len(stack) == 1
-        item = stack.get()
-        assert item == b'\xff'
-        return True
+        if len(stack) != 1:
+            return False
+        return stack.get() == b'\xff'
     except BaseException as e:
         return False
 
